@@ -191,7 +191,7 @@ pub fn drive()
         }
 
         let detail = J::obj(vec![
-            ("rules_file", J::Str(String::from_utf8_lossy(&w.sys.read_file(world::RULES_FILE).unwrap_or(vec![])).to_string())),
+            ("rules_file", J::Str(w.rules_text())),
             ("steps", J::strs(&notes)),
         ]);
         if tally.wants_sample() && found.len() == 0 && fed.len() > 0 { tally.sample(detail.clone()); }
